@@ -23,10 +23,11 @@ from fractions import Fraction as Fr
 from bitstring import Dtype, Array
 
 FUNCTIONAL = True
-LEVEL_TEXT = ("Lean theorems over the tables re-extracted from the working tree on every run: each of the nine code->float tables equals the format definition (sign, biased exponent, mantissa, subnormals, single/signed zero, inf, NaN) on every code; each of the nine float16->code tables holds, at every one of its 65 536 indices, the code of the nearest representable value (ties to the even code, out-of-range/inf/NaN as documented per format and mxfp_overflow mode) - kernel-checked entry by entry with a neighbour test proved sound for the declarative nearest-value statement on a strictly increasing grid; float_to_int with its OverflowError clamp branch returns that code for every float64; decode-then-encode returns every non-NaN code (except e5m2 inf under saturate); e8m0 accepts exactly the powers of two; mxint and bfloat decode exactly; mxint2bitstore = nearest-even of 64x on all codes and all half-precision inputs. Correspondence: every code and every half-precision input of every format and mode through the public API, float64 inputs at ties +-1ulp, beyond 65504, subnormal, inf, NaN, -0.0, scaled dtypes.")
-LEVEL_NOTE = ("Trusted: Lean kernel (+propext, Classical.choice, Quot.sound); harness/extract.py reads the live tables; struct.pack('>e'/'>f'), float64 * / + and int() are modelled by their IEEE-754 meaning (exact result then round-to-nearest-even), not verified; the transcription of the Python is tied by the differential run only. mxint2bitstore deviates from nearest-even on exactly two float64 inputs (known finding); the general float64 statement for mxint is proved only on the enumerated domains.")
+LEVEL_TEXT = ("Lean theorems over the tables re-extracted from the working tree on every run: each of the nine code->float tables equals the format definition (sign, biased exponent, mantissa, subnormals, single/signed zero, inf, NaN) on every code; each of the nine float16->code tables holds, at every one of its 65 536 indices, the code of the nearest representable value (ties to the even code, out-of-range/inf/NaN/sign-of-zero as documented per format and mxfp_overflow mode) - kernel-checked entry by entry with a neighbour test proved sound for the declarative nearest-value statement on a strictly increasing grid; float_to_int with its OverflowError clamp branch returns that code for every float64 and both modes; decode-then-encode returns every non-NaN code (except e5m2 inf under saturate); e8m0 accepts exactly NaN and the 255 powers of two; mxint and all 65 536 bfloat codes decode exactly; bfloat encoding is the upper half of the IEEE float32 conversion. Correspondence: every code and every half-precision input of every format and mode through the public API, float64 inputs at ties +-1ulp, beyond 65504, subnormal, inf, NaN, -0.0, scaled dtypes.")
+LEVEL_NOTE = ("Trusted: Lean kernel (+propext, Classical.choice, Quot.sound); harness/extract.py reads the live tables; struct.pack('>e'/'>f'), float64 * / + and int() are modelled by their IEEE-754 meaning (exact result then round-to-nearest-even), not verified; the transcription of the Python is tied by the differential run only. mxint2bitstore deviates from nearest-even on exactly two float64 inputs (known finding); for mxint the nearest-even statement is proved on all codes only, for other inputs it rests on the correspondence.")
 TECHNIQUE = "Lean 4 proof (kernel-checked tables re-extracted each run + soundness of a local nearest-value checker) + exhaustive correspondence"
-NOT_YET_PROVED = ["mxint_rne (every float64 outside the two deviating inputs; proved for all codes and all half-precision inputs)",
+NOT_YET_PROVED = ["mxint_rne (mxint2bitstore = nearest-even of 64x with saturation for every float64 outside the two deviating inputs; proved on all 256 representable values, witness of the deviation proved; every half-precision input and float64 ties are covered by the correspondence only)",
+                  "bfloat_reencode_fixpoint (bfloat decode-then-encode is the identity on all non-NaN codes: correspondence only - all 65 536 codes in the thorough tier)",
                   "scaled_pow2_exact (power-of-two scales shift the exponent exactly; covered by correspondence only)"]
 TRUSTED = ["CPython struct.pack('>e'/'>f')/unpack and float64 arithmetic follow IEEE 754 round-to-nearest-even (modelled, not verified)"]
 
